@@ -7,7 +7,8 @@ Oracles (DESIGN.md section 6, C03)
   (b) context - deleting / permuting the other triples leaves a triple's rows unchanged (rows are matched through the
                 component indices of the descriptor, never through ids; the id -> component mapping of each Result is
                 cross-checked through the parameter rows in (a)).
-  (c) faults  - one component raises InjectedFault(marker) at params construction / j-th predict / j-th learn / j-th
+  (c) faults  - one component raises InjectedFault(marker) at params construction / j-th predict / j-th learn (also one-shot
+                inside a batch-capable learner on a batched environment, j >= 1) / j-th
                 interaction of read / after the evaluator yielded j rows: run() does not raise, every triple whose solo run
                 is hit by the fault has NO rows, every other triple is present and solo-equal, the captured log contains the
                 marker at least once per failing triple.
@@ -200,6 +201,11 @@ def fault_cases(draw, tier, modes=("inproc", "inproc", "sim")):
         fam, x = draw(st.sampled_from(cands))
         kinds = {"env": ["env_read", "env_read", "env_params"], "lrn": ["lrn_predict", "lrn_learn", "lrn_learn", "lrn_params"], "val": ["val_rows"]}[fam]
         fault = {"kind": draw(st.sampled_from(kinds)), "target": x, "at": draw(st.sampled_from([0, 0, 0, 1, 1, 2]))}
+    # batched experiments: mostly a one-shot fault INSIDE a batch-capable learner after the batch convention is established
+    capable = [i for i, l in enumerate(desc["learners"]) if G.batch_capable(l)]
+    if capable and any(op[0] == "batch" for g in desc["groups"] for op in g["ops"]) and draw(st.integers(0, 9)) < 6:
+        fault = {"kind": draw(st.sampled_from(["lrn_predict_b", "lrn_learn_b", "lrn_learn_b"])), "target": draw(st.sampled_from(capable)),
+                 "at": draw(st.sampled_from([1, 1, 1, 2]))}
     return {"desc": desc, "exec": draw(exec_cfg(modes)), "fault": fault}
 
 @st.composite
